@@ -290,3 +290,65 @@ Qed.
 
 Lemma tie_vc_snapshot s : VectorClock_snapshot s = VectorClock__vector s.
 Proof. reflexivity. Qed.
+
+(* ------------------------------------------------------------------ *)
+(** * PNCounter (pn_counter.py): two translated G-counters; every method is the
+      model's [pn_*] function on the abstraction ([_p], [_n] read through [gc_abs]). *)
+Definition pn_abs (c : PNCounter) : pn := (gc_abs (PNCounter__p c), gc_abs (PNCounter__n c)).
+
+Lemma tie_pn_increment c n :
+  match PNCounter_increment c n with
+  | None => n < 1
+  | Some (c', _) =>
+      1 <= n /\ PNCounter__n c' = PNCounter__n c /\ PNCounter__node_id c' = PNCounter__node_id c
+      /\ GCounter__node_id (PNCounter__p c') = GCounter__node_id (PNCounter__p c)
+      /\ forall k, fst (pn_abs c') k = fst (pn_inc (GCounter__node_id (PNCounter__p c)) n (pn_abs c)) k
+  end.
+Proof.
+  unfold PNCounter_increment. pose proof (tie_gc_increment (PNCounter__p c) n) as H.
+  destruct (GCounter_increment (PNCounter__p c) n) as [[p' u]|].
+  - destruct H as (H1 & H2 & H3). cbn. repeat split; try assumption.
+  - destruct H as [H _]. exact H.
+Qed.
+
+Lemma tie_pn_decrement c n :
+  match PNCounter_decrement c n with
+  | None => n < 1
+  | Some (c', _) =>
+      1 <= n /\ PNCounter__p c' = PNCounter__p c /\ PNCounter__node_id c' = PNCounter__node_id c
+      /\ GCounter__node_id (PNCounter__n c') = GCounter__node_id (PNCounter__n c)
+      /\ forall k, snd (pn_abs c') k = snd (pn_dec (GCounter__node_id (PNCounter__n c)) n (pn_abs c)) k
+  end.
+Proof.
+  unfold PNCounter_decrement. pose proof (tie_gc_increment (PNCounter__n c) n) as H.
+  destruct (GCounter_increment (PNCounter__n c) n) as [[p' u]|].
+  - destruct H as (H1 & H2 & H3). cbn. repeat split; try assumption.
+  - destruct H as [H _]. exact H.
+Qed.
+
+Lemma tie_pn_merge a b :
+  dwf (GCounter__counts (PNCounter__p b)) = true -> dwf (GCounter__counts (PNCounter__n b)) = true ->
+  dnonneg (GCounter__counts (PNCounter__p a)) -> dnonneg (GCounter__counts (PNCounter__n a)) ->
+  forall k, fst (pn_abs (fst (PNCounter_merge a b))) k = fst (pn_merge (pn_abs a) (pn_abs b)) k
+         /\ snd (pn_abs (fst (PNCounter_merge a b))) k = snd (pn_merge (pn_abs a) (pn_abs b)) k.
+Proof.
+  intros Wp Wn Np Nn k. unfold PNCounter_merge, pn_abs, pn_merge.
+  destruct (GCounter_merge (PNCounter__p a) (PNCounter__p b)) as [p' u1] eqn:Ep.
+  cbn [set_PNCounter__p PNCounter__n PNCounter__p].
+  destruct (GCounter_merge (PNCounter__n a) (PNCounter__n b)) as [n' u2] eqn:En.
+  cbn [fst snd set_PNCounter__n PNCounter__n PNCounter__p].
+  pose proof (tie_gc_merge (PNCounter__p a) (PNCounter__p b) Wp Np k) as H1. rewrite Ep in H1.
+  pose proof (tie_gc_merge (PNCounter__n a) (PNCounter__n b) Wn Nn k) as H2. rewrite En in H2.
+  split; assumption.
+Qed.
+
+Lemma tie_pn_value c :
+  dwf (GCounter__counts (PNCounter__p c)) = true -> dwf (GCounter__counts (PNCounter__n c)) = true ->
+  PNCounter_value c = gc_value (map fst (GCounter__counts (PNCounter__p c))) (fst (pn_abs c))
+                    - gc_value (map fst (GCounter__counts (PNCounter__n c))) (snd (pn_abs c))
+  /\ PNCounter_increments c = gc_value (map fst (GCounter__counts (PNCounter__p c))) (fst (pn_abs c))
+  /\ PNCounter_decrements c = gc_value (map fst (GCounter__counts (PNCounter__n c))) (snd (pn_abs c)).
+Proof.
+  intros Wp Wn. unfold PNCounter_value, PNCounter_increments, PNCounter_decrements, pn_abs; cbn [fst snd].
+  rewrite (tie_gc_value _ Wp), (tie_gc_value _ Wn). repeat split.
+Qed.
